@@ -136,7 +136,7 @@ def generate(rng, tier, shard, nshards, mon):
                 yield {"fiber": cfg, "travs": _travs_for(rng, cfg, full=True), "sys": True}
             idx += 1
     mon.exhaustive[f"3state-n{n}-all-ranges"] = True
-    nrand = (600 if tier == "quick" else 12000) // nshards
+    nrand = (1600 if tier == "quick" else 16000) // nshards
     for _ in range(nrand):
         if rng.random() < 0.3:
             ext = [rng.randint(1, 5), rng.randint(1, 3)]
